@@ -483,7 +483,8 @@ def run(ctx):
     from ..report import Ctx as _LCtx
     from . import c07 as _lsrc
     _sub = _LCtx('C07', 'quick', ctx.src, 0)
-    _lsrc.run(_sub)
+    from ..report import run_lifted as _run_lifted
+    _run_lifted(ctx, _lsrc, _sub)
     _lifted = [f for f in _sub.findings if f.rule == 'C07.R1']
     for f in _lifted:
         ctx.fail('C13.R6', f.key, f.site, f.message)
@@ -494,7 +495,8 @@ def run(ctx):
     from ..report import Ctx as _LCtx_C13_R7
     from . import c05 as _lsrc_C13_R7
     _sub_C13_R7 = _LCtx_C13_R7('C05', 'quick', ctx.src, 0)
-    _lsrc_C13_R7.run(_sub_C13_R7)
+    from ..report import run_lifted as _run_lifted
+    _run_lifted(ctx, _lsrc_C13_R7, _sub_C13_R7)
     _lifted_C13_R7 = [f for f in _sub_C13_R7.findings if f.rule == 'C05.R3' and '|total' in f.key]
     for f in _lifted_C13_R7:
         ctx.fail('C13.R7', f.key, f.site, f.message)
